@@ -26,7 +26,7 @@ VARIANTS = {
     # single-threaded machines: ASan+UBSan, trace-pc-guard feeds the deterministic step counter
     "asan": dict(
         cc="clang", cxx="clang++",
-        san=["-fsanitize=address,undefined", "-fno-sanitize=pointer-overflow,null,object-size", "-fno-sanitize-recover=undefined",
+        san=["-fsanitize=address,undefined", "-fno-sanitize=pointer-overflow,null,object-size,nonnull-attribute", "-fno-sanitize-recover=undefined",
              "-fno-omit-frame-pointer"],
         sut_extra=["-fsanitize-coverage=trace-pc-guard"],
         opt=["-O1", "-g"],
@@ -45,7 +45,7 @@ VARIANTS = {
 # driver name -> (variant, harness sources relative to hwsim/, extra link flags, sources that get SUT instrumentation)
 DRIVERS = {
     "bitmap": dict(variant="asan", src=["core/core.cc", "bitmap/machine_bitmap.cc"], link=[]),
-    "topo": dict(variant="asan", src=["core/core.cc", "topo/dump.cc", "topo/wf.cc", "topo/src.cc", "topo/ops_core.cc",
+    "topo": dict(variant="asan", src=["core/core.cc", "topo/dump.cc", "topo/wf.cc", "topo/src.cc", "topo/ops_core.cc", "topo/ops_repl.cc",
                                       "topo/machine_topo.cc"], link=[]),
     # C10: hwloc's Linux binding hooks against the kernel model (bind/kmodel.cc); the real kernel is never asked
     "bind": dict(variant="asan", src=["core/core.cc", "bind/kmodel.cc", "bind/machine_bind.cc"],
@@ -185,5 +185,11 @@ def gc_builds(keep=6):
 
 
 if __name__ == "__main__":
+    # setup = cache warm-up; every check rebuilds what it needs anyway, so a driver that does not build is reported, not fatal
     for drv in (sys.argv[1:] or list(DRIVERS)):
-        print(build(drv, quiet=False))
+        try:
+            print(build(drv, quiet=False))
+        except RuntimeError as e:
+            sys.stderr.write("build of %s failed:\n%s\n" % (drv, e))
+            if sys.argv[1:]:
+                sys.exit(1)
